@@ -184,6 +184,33 @@ def judge(ctx, cases, fams=None, pooledmax=0, tag="j"):
     return recs
 
 
+def option_obligations(ctx, fams):
+    """spec/ReuseOptions.tla enumerates (call WITH an option argument, call WITHOUT it on a dependent document); every
+    parser family that has the first kind must have the second - all pairs over the whole menus then cover them."""
+    r = ctx.tlc("ReuseOptions", "SPECIFICATION Spec\nCONSTRAINT Emit\nCHECK_DEADLOCK FALSE\n", workers=1, timeout=300)
+    if r.error or r.violated:
+        raise Infra("option obligation generation failed:\n" + r.out[-2000:])
+    obs = r.printed("OB")
+    if not obs:
+        raise Infra("no option obligations emitted")
+    covered, seen_with = 0, set()
+    for f in fams:
+        if "arser" not in f["name"]:
+            continue
+        names = {k["name"] for k in f["kinds"]}
+        for o in obs:
+            w, wo = ":".join(o["with"]), ":".join(o["without"])
+            if w in names:
+                seen_with.add(w)
+                if wo not in names:
+                    raise Infra("family %s has kind %s but not %s (spec/ReuseOptions.tla)" % (f["name"], w, wo))
+                covered += 1
+    missing = {":".join(o["with"]) for o in obs} - seen_with
+    if missing:
+        raise Infra("no family has the option kinds %s" % sorted(missing))
+    ctx.cov["option_obligations_covered"] = covered
+
+
 def gen_histories(ctx, K, L, group=""):
     """TLC enumerates every history of length L over the menu 1..K (maximal histories are printed)."""
     r = ctx.tlc("Reuse", GEN_CFG % (K, L), workers=1, timeout=900, heap="6g")
@@ -215,14 +242,15 @@ def main(ctx):
     ctx.design("Reuse", "Reuse_exceptions.cfg", expect_violation="NeverOverwritten", workers=1, count=False)
     fams = menu(ctx)
     K = max(len(f["kinds"]) for f in fams)
+    option_obligations(ctx, fams)
     hp = os.path.join(ctx.scratch, "hist.ndjson")
     if ctx.quick:
         # every family: all PAIRS over its whole menu; instance types: all TRIPLES over the first 16 kinds of the menu
         # (the menus list the state-touching kinds first); everything: deep simulated histories over the whole menus
         hs = gen_histories(ctx, K, 2) + gen_histories(ctx, 16, 3, "inst") + sim_histories(ctx, K, 400, 10)
     else:
-        # all triples over the whole menus, all quadruples over the first 16 kinds of every menu, deep simulated histories
-        hs = gen_histories(ctx, K, 3) + gen_histories(ctx, 16, 4) + sim_histories(ctx, K, 3000, 12)
+        # all pairs over the whole menus, all triples over the first 36 kinds, all quadruples over the first 16, deep simulated histories
+        hs = gen_histories(ctx, K, 2) + gen_histories(ctx, min(K, 36), 3) + gen_histories(ctx, 16, 4) + sim_histories(ctx, K, 3000, 12)
     verif.write_ndjson(hp, hs)
     recs = judge(ctx, hp, fams, tag="m")
     for r in recs:
@@ -235,7 +263,7 @@ def main(ctx):
                        "fresh-instance result, every returned value re-inspected after input scribbling and after every later "
                        "call. distinct_nontrivial = distinct (family, kind -> next kind) transitions executed."
                        % ("all pairs over the whole menus, all triples over the first 16 kinds (instance types)," if ctx.quick else
-                          "all triples over the whole menus, all quadruples over the first 16 kinds,", 10 if ctx.quick else 12))
+                          "all pairs over the whole menus, all triples over the first 36 kinds, all quadruples over the first 16 kinds,", 10 if ctx.quick else 12))
     for f in fams[:3]:
         ctx.sample({"family": f["name"], "history": [k["name"] for k in f["kinds"][:3]]})
     ctx.assumptions += [
